@@ -8,13 +8,14 @@ import (
 	"strings"
 	"time"
 
+	ipfslog "berty.tech/go-ipfs-log"
 	"berty.tech/go-orbit-db/iface"
 	"berty.tech/go-orbit-db/stores/operation"
 )
 
 func init() {
 	Register(&Scenario{Prop: "C07", Name: "docstore-lww", Run: scenC07, SoftParks: true, Weight: 1,
-		Rule: "1-3 writer replicas of one document database; 3-14 (thorough 3-40) operations drawn from Put, PutBatch, PutAll (overlapping key sets), Delete (present and absent keys) over mixed-case keys of letters, digits and punctuation, interleaved with replication under faults; at every quiescent step each replica's documents must equal the LWW replay of its own log; at checkpoints Get with all four option combinations over every key, every 1-2 character infix and case variants, and four Query predicates are compared with the model; Delete of an absent key must fail and append nothing; non-trivial = >=3 writes including a batch put and an overlapping later/earlier single operation on one of its keys; one operation in six is a burst of 2-3 concurrent local writers stepped through the write path or free-running (the client of one of them may give up mid-write)"})
+		Rule: "1-3 writer replicas of one document database; 3-14 (thorough 3-40) operations drawn from Put, PutBatch, PutAll (overlapping key sets), Delete (present and absent keys) over mixed-case keys of letters, digits and punctuation, interleaved with replication under faults (one operation in ten arms a disk error for the next write of the merged heads on one replica: the merge stands, documents and log must still agree); at every quiescent step each replica's documents must equal the LWW replay of its own log; at checkpoints Get with all four option combinations over every key, every 1-2 character infix and case variants, and four Query predicates are compared with the model; Delete of an absent key must fail and append nothing; non-trivial = >=3 writes including a batch put and an overlapping later/earlier single operation on one of its keys; one operation in six is a burst of 2-3 concurrent local writers stepped through the write path or free-running (the client of one of them may give up mid-write), with 0-2 readers asking for every document (Get with a partial match on the empty key, or Query) beside them: a reader must not fail, and what it is given must be the documents of one state between its call and its return (the replay of the entries the documents last agreed with plus any subset of the entries that came since, in the log order)"})
 }
 
 var c07Keys = []string{"Ab", "ab", "aB.c", "x-1", "X-1", "ab2", "Q_q"}
@@ -29,6 +30,7 @@ func scenC07(k *K) {
 	if Tier == "thorough" {
 		nops = k.C.Range(3, 40)
 	}
+	agreed := map[int]map[string]bool{}
 	checkState := func(where string) {
 		for i, s := range c.Stores {
 			if s == nil {
@@ -45,8 +47,12 @@ func scenC07(k *K) {
 			if !EqMap(want, got) {
 				k.Failf("C07/lww-mismatch", "%s: n%d documents=%s but LWW replay of its %d-entry log gives %s; log=%v", where, i, MapStr(got), len(LogValues(s)), MapStr(want), LogNames(s))
 			}
+			agreed[i] = LogHashSet(s)
 		}
 		c.CheckCausalOrder("C07")
+	}
+	readAtSomeState := func(node int, base map[string]bool, got map[string]string) (bool, string) {
+		return ReadAtSomeState(k, c.Stores[node], base, got)
 	}
 	k.Invariant = func() { checkState("step") }
 	batchKeys := map[string]bool{}
@@ -56,6 +62,22 @@ func scenC07(k *K) {
 	c.BurstCancel = k.C.Chance(1, 2)
 	for i := 0; i < nops; i++ {
 		node := k.C.Intn(n)
+		if n > 1 && k.C.Chance(1, 10) {
+			// the next write of the merged heads to the cache fails on one replica (disk error
+			// at the end of a merge): what was merged is in its log, and in its documents
+			nd := c.Peers[k.C.Intn(n)].Node
+			k.W.mu.Lock()
+			k.W.DiskFault = func(on *Node, kind, space, key string) error {
+				if on == nd && kind == "cache-put" && strings.HasSuffix(key, "_remoteHeads") {
+					k.W.DiskFault = nil
+					k.W.stat("merge-heads-write-failed")
+					return fmt.Errorf("sim: disk error on %s", key)
+				}
+				return nil
+			}
+			k.W.mu.Unlock()
+			k.cleanups = append(k.cleanups, func() { k.W.mu.Lock(); k.W.DiskFault = nil; k.W.mu.Unlock() })
+		}
 		if k.C.Chance(1, 6) {
 			// concurrent local writers (put, batch put, delete on a small key set); the client
 			// of one of them may give up mid-write
@@ -64,6 +86,7 @@ func scenC07(k *K) {
 			// some moment in between, never an error
 			dsr := c.Stores[node].(iface.DocumentStore)
 			var readers []*Op
+			base := agreed[node] // as of the last quiescent comparison before the readers start
 			for r, m := 0, k.C.Range(0, 2); r < m; r++ {
 				viaQuery := k.C.Chance(1, 2)
 				readers = append(readers, k.Go(node, "read-all-during-burst", func() (interface{}, error) {
@@ -85,6 +108,10 @@ func scenC07(k *K) {
 					k.Failf("C07/read-error", "a Get/Query for all documents that ran while local writers (put, batch put, delete) were at work failed: %v", r.Err)
 				}
 				k.W.Stat("read-all-concurrent-with-writes")
+				docs, _ := r.Val.([]interface{})
+				if ok, why := readAtSomeState(node, base, docsByID(docs)); !ok {
+					k.Failf("C07/read-matches-no-state", "n%d: a Get/Query for all documents that ran beside concurrent writers returned %s, which is the documents of no state between its call and its return (%s)", node, MapStr(docsByID(docs)), why)
+				}
 			}
 			k.Steps(k.C.Intn(6))
 			checkState("after-burst")
@@ -200,6 +227,10 @@ func docState(ds iface.DocumentStore) (map[string]string, error) {
 	if err != nil {
 		return nil, err
 	}
+	return docsByID(docs), nil
+}
+
+func docsByID(docs []interface{}) map[string]string {
 	out := map[string]string{}
 	for _, d := range docs {
 		m, _ := d.(map[string]interface{})
@@ -210,7 +241,7 @@ func docState(ds iface.DocumentStore) (map[string]string, error) {
 		}
 		out[id] = string(b)
 	}
-	return out, nil
+	return out
 }
 
 func c07Queries(k *K, c *Cluster, r int, nkeys int) int {
@@ -305,4 +336,49 @@ func jsonList(res []interface{}) []string {
 	}
 	sort.Strings(out)
 	return out
+}
+
+func EntryNames(es []ipfslog.Entry) []string {
+	var out []string
+	for _, e := range es {
+		out = append(out, EntryName(e))
+	}
+	return out
+}
+
+// readAtSomeState: what a reader that ran beside writers and merges was given must be the
+// documents of ONE state the replica went through meanwhile. Every such state is the
+// replay of the entries the documents were last seen to agree with plus some of the
+// entries that have come since, in the log's order (an over-approximation: sets that
+// never existed are accepted too, so that a mismatch is a mismatch with all of them)
+func ReadAtSomeState(k *K, st iface.Store, base map[string]bool, got map[string]string) (bool, string) {
+	var all, fresh []ipfslog.Entry
+	all = LogValues(st)
+	for _, e := range all {
+		if !base[e.GetHash().String()] {
+			fresh = append(fresh, e)
+		}
+	}
+	if len(fresh) > 12 {
+		k.W.Stat("read-beside-writers-not-judged(too many new entries)")
+		return true, ""
+	}
+	for mask := 0; mask < 1<<len(fresh); mask++ {
+		in := map[string]bool{}
+		for j, e := range fresh {
+			if mask&(1<<j) != 0 {
+				in[e.GetHash().String()] = true
+			}
+		}
+		var sub []ipfslog.Entry
+		for _, e := range all {
+			if h := e.GetHash().String(); base[h] || in[h] {
+				sub = append(sub, e)
+			}
+		}
+		if EqMap(ReplayLWW(sub), got) {
+			return true, ""
+		}
+	}
+	return false, fmt.Sprintf("documents last seen in agreement with %d entries, %d entries since: %v", len(all)-len(fresh), len(fresh), EntryNames(fresh))
 }
